@@ -20,6 +20,7 @@ import shutil
 import numpy as np
 from runner import Case
 from shapes import prod, fmt, fmt_lists
+from props.c14 import POPS, F32      # NumPy reference of the parametrised activations (binary32), shared with C14
 
 ID = 'C13'
 LEVEL = 'proof'
@@ -28,7 +29,7 @@ RULE = ('view programs of depth 1..3 over the device-supported operations (index
         'both operand rebuild modes (device_array / create_array(ptr,shape_ptr,dim)); block sizes cycle through 1..33, grids from '
         'exactly covering to 2x over-provisioned, orders ascending / descending / block-interleaved / even-odd / random permutation, '
         'duplicated threads, far out-of-range threads, partial launches; one program additionally over the full cross product '
-        'bsz 1..33 x grid x order; binary ufuncs with both operands views and reductions over them; number-valued sub-views (reductions over all axes) as first / non-first operands of binary ufuncs, alone, nested, repeated leaf; number literal operands in either position; 18 programs end to end through the real SYCL evaluator over a mock runtime '
+        'bsz 1..33 x grid x order; binary ufuncs with both operands views and reductions over them; number-valued sub-views (reductions over all axes) as first / non-first operands of binary ufuncs, alone, nested, repeated leaf; number literal operands in either position; 15 programs over float leaves with unary ufuncs whose op carries run-time parameters (8 parametrised activations, two non-default values each, alone and in chains); 24 programs end to end through the real SYCL evaluator over a mock runtime '
         '(its own launch: work-group 32, global size rounded up; work items in 5 orders, duplicated, beyond the launch, omitted); uploads of row- and column-major '
         'operands of rank 1..8 through the real CUDA / HIP create_array. non-trivial = output has >= 2 cells and the schedule is not the plain ascending exact launch')
 EXHAUSTIVE = {'quick': False, 'thorough': False}
@@ -40,7 +41,7 @@ ANCHORS = {'NmVerif.Kernel.createVector/createArray/createMutableArray': 'array:
            'NmVerif.Kernel.deviceOperand': 'cuda::context_t::create_array / hip / sycl (eval/cuda/context.hpp:155-200, eval/hip/context.hpp:158-203, eval/sycl/context.hpp:372-412), run for real in h_c13_dev.cpp / h_c13_sycl.cpp',
            'SYCL launch': 'sycl::context_t::run / run_ (eval/sycl/context.hpp:448-520, 575-595) and evaluator_t<view, shared_ptr<sycl::context_t>> (eval/sycl/evaluator.hpp), run for real over the mock runtime'}
 MANIFEST = dict(
-    text='Proof: 13 Lean theorems about the kernel body model — create_vector/create_array/device_array round trips from raw (pointer, shape, dim) triples, the guard (global id >= size writes nothing), the closed form of the fold over ANY schedule (order, interleaving, duplication, block size, over-provisioned or partial grid: a cell is final iff some executed thread addressed it, otherwise untouched; never out of bounds) and hence output = flattened host result for every covering launch — tied to the C++ by running the real kernel_helper.hpp + functional extraction/apply on the host for 71 view programs of depth 1..3, the real SYCL evaluator end to end over a sequential mock of the SYCL runtime (18 programs) and the real CUDA/HIP operand upload over runtime stand-ins (CUDA/HIP/SYCL path: function extraction + device_array operands + fn::apply; OpenCL path: create_array(ptr,shape_ptr,dim) + direct view call), block sizes 1..33, exact..2x grids, five thread orders, duplicated / far / missing threads, against NumPy and the Lean fold on every check.',
+    text='Proof: 13 Lean theorems about the kernel body model — create_vector/create_array/device_array round trips from raw (pointer, shape, dim) triples, the guard (global id >= size writes nothing), the closed form of the fold over ANY schedule (order, interleaving, duplication, block size, over-provisioned or partial grid: a cell is final iff some executed thread addressed it, otherwise untouched; never out of bounds) and hence output = flattened host result for every covering launch — tied to the C++ by running the real kernel_helper.hpp + functional extraction/apply on the host for 86 view programs of depth 1..3, the real SYCL evaluator end to end over a sequential mock of the SYCL runtime (24 programs) and the real CUDA/HIP operand upload over runtime stand-ins (CUDA/HIP/SYCL path: function extraction + device_array operands + fn::apply; OpenCL path: create_array(ptr,shape_ptr,dim) + direct view call), block sizes 1..33, exact..2x grids, five thread orders, duplicated / far / missing threads, against NumPy and the Lean fold on every check.',
     note='No device in this sandbox: kernel launch, driver API, memory transfer and real hardware scheduling are not exercised; the 1-d launch is modelled as an arbitrary list of (thread, block) pairs executed sequentially (threads write disjoint cells or identical values, so sequential consistency is the only assumption). Lean kernel + propext/Classical.choice/Quot.sound. Known findings (both replayed through the real SYCL evaluator and the real CUDA/HIP create_array as well): column-major host operands are re-read row-major on the device path (repair proposed: fixes/C13-kernel.colmajor-operand.diff); function extraction is wrong when a view operand is not the first operand (fixes/C14-extract.nonfirst-view-operand.diff); follow-ups on branch w4/c1314-postfix. Repaired: dangling reference in get_function_composition for binary ufuncs over views (regression programs kept, also under ASan in the thorough tier).',
     technique='Lean 4 induction over schedules (List (tid x bid)) + differential correspondence of the host-compilable kernel body')
 ASSUMPTIONS = ['a device launch is equivalent to some sequential execution of its threads (each thread writes one cell; colliding writes carry the same value)',
@@ -54,6 +55,32 @@ TRUSTED = ['host simulation of the kernel body: same headers, same call sequence
 
 SENTINEL = -7
 MAXOUT = 64
+FLOAT_GROUPS = [12, 13]           # harness TUs with float leaves (-DC13_ELEM_FLOAT): elements are printed as binary32 bit patterns
+SYCL_FLOAT_GROUPS = [5]
+
+
+def f32_codes(x):
+    """binary32 values -> their bit patterns as int32 (the element codes of the float harness TUs)"""
+    return [int(v) for v in np.ascontiguousarray(np.asarray(x, dtype=np.float32)).reshape(-1).view(np.int32)]
+
+
+def encode(res, pg):
+    """flattened result as the list of element codes the harness prints, and the code of the sentinel"""
+    if pg['data'] == 'float':
+        return f32_codes(res), f32_codes([SENTINEL])[0]
+    return [int(x) for x in res.reshape(-1)], SENTINEL
+
+
+def float_cmp(a, b):
+    """answers of the float TUs: shape / hosteq exact, the out= bit patterns compared as binary32 numbers within tolerance"""
+    if not (a.startswith('ok ') and b.startswith('ok ')):
+        return a == b
+    da = dict(kv.split('=', 1) for kv in a.split()[1:] if '=' in kv); db = dict(kv.split('=', 1) for kv in b.split()[1:] if '=' in kv)
+    if da.get('shape') != db.get('shape') or da.get('hosteq') != db.get('hosteq'):
+        return False
+    dec = lambda t: np.array([] if t in ('[]', '') else [int(v) for v in t.split(',')], dtype=np.int64).astype(np.int32).view(np.float32).astype(np.float64)
+    xa, xb = dec(da.get('out', '')), dec(db.get('out', ''))
+    return xa.shape == xb.shape and bool(np.allclose(xa, xb, rtol=2e-5, atol=2e-6))
 
 
 # ---------------------------------------------------------------------------------------------------------------
@@ -62,6 +89,8 @@ MAXOUT = 64
 def leaf(shape, j, data):
     n = prod(shape)
     k = np.arange(n, dtype=np.int64)
+    if data == 'float':          # multiples of 0.5 in [-3, 3], binary32 (mirror of c13::leaf_value)
+        return (0.5 * ((k * 7 + 3 * j) % 13) - 3.0).astype(np.float32).reshape(shape)
     if data == 'small':
         v = (k * 7 + 3 * j) % 5 + 1
     elif data == 'cond' and j == 0:
@@ -304,6 +333,30 @@ def _progs():
     add('add_mul_sumall_x_x', 11, 3, lambda A, p: np.sum(A[0]) * A[1] + A[2], g_free_pair, bview=True)
     add('tr_add_maxall_x', 11, 3, lambda A, p: np.transpose(np.max(A[0]) + A[1], p['axes']), g_free_tr, bview=True)
     add('mul_x_sumall_mul', 11, 3, lambda A, p: A[0] * np.sum(A[1] * A[2]), g_free_pair, data='small', nonfirst=True)
+    # ---- unary ufuncs whose op carries RUN-TIME PARAMETERS (float leaves; `pq` = the parameters in quarter units): the device path
+    #      re-applies the extracted functor, which gets the op — and with it the parameter — through ufunc_t::attributes() only.
+    #      Two NON-DEFAULT values per op, one far from the default, taken in turn ----
+    def pgen(values, shapes_of):
+        cyc = itertools.cycle(values)
+        def g(rng):
+            shapes, params = shapes_of(rng)
+            params = dict(params); params['pq'] = list(next(cyc)); return shapes, params
+        return g
+    q = lambda p, i=None: [F32(v / 4.0) for v in (p['pq'] if i is None else p['pq'][i:])]
+    one = lambda rng: ([rshape(rng)], P())
+    ACT = [('leaky', 'leaky_relu', [(2,), (12,)]), ('elu', 'elu', [(2,), (10,)]), ('celu', 'celu', [(2,), (10,)]),
+           ('hardtanh', 'hardtanh', [(-2, 3), (-10, 8)]), ('softplus', 'softplus', [(8, 2), (2, 4)]),
+           ('hardshrink', 'hardshrink', [(1,), (8,)]), ('softshrink', 'softshrink', [(1,), (5,)]), ('prelu', 'prelu', [(2,), (16,)])]
+    for short, op, vals in ACT:
+        add('act_' + short, 12, 1, (lambda op: lambda A, p: POPS[op](A[0], q(p)))(op), pgen(vals, one), data='float')
+    LK = [(2,), (12,)]
+    add('neg_leaky', 13, 2, lambda A, p: -POPS['leaky_relu'](A[0], q(p)), pgen(LK, one), data='float')
+    add('leaky_add', 13, 2, lambda A, p: POPS['leaky_relu'](A[0] + A[1], q(p)), pgen(LK, g_bin), data='float')
+    add('add_leaky_x', 13, 2, lambda A, p: POPS['leaky_relu'](A[0], q(p)) + A[1], pgen(LK, g_bin), data='float', bview=True)
+    add('add_x_leaky', 13, 2, lambda A, p: A[0] + POPS['leaky_relu'](A[1], q(p)), pgen(LK, g_bin), data='float', nonfirst=True)
+    add('hardtanh_mul_elu_x', 13, 3, lambda A, p: POPS['hardtanh'](POPS['elu'](A[0], q(p)) * A[1], q(p, 1)), pgen([(10, -2, 3), (2, -10, 8)], g_bin), data='float', bview=True)
+    add('sum_softshrink', 13, 2, lambda A, p: np.sum(POPS['softshrink'](A[0], q(p)), axis=p['axis'], dtype=np.float32), pgen([(1,), (5,)], g_axis2), data='float')
+    add('prelu_tr', 13, 2, lambda A, p: POPS['prelu'](np.transpose(A[0], p['axes']), q(p)), pgen([(2,), (16,)], g_transpose), data='float')
     # number literal operands of binary ufuncs, either position
     def g_lit1(rng):
         return [rshape(rng)], P(lit=rng.choice([-7, -2, -1, 0, 1, 2, 3, 5, 11]))
@@ -319,7 +372,7 @@ def _progs():
 
 
 PROGS = _progs()
-GROUPS = [1, 2, 3, 4, 5, 6, 7, 8, 9, 10, 11]
+GROUPS = [1, 2, 3, 4, 5, 6, 7, 8, 9, 10, 11, 12, 13]
 
 
 # programs also run END TO END through the real SYCL evaluator (eval/sycl/evaluator.hpp + context.hpp) over the sequential
@@ -327,8 +380,9 @@ GROUPS = [1, 2, 3, 4, 5, 6, 7, 8, 9, 10, 11]
 SYCL_PROGS = {'transpose': 1, 'add': 1, 'reduce_add': 1, 'accumulate_add': 1, 'neg_add': 1, 'add_tr': 1,
               'sum_mul': 2, 'neg_add_mul': 2, 'tr_neg_add': 2, 'add_mul2': 2,
               'transpose_col': 3, 'add_col': 3,
-              'mul_sumall_x': 4, 'sub_maxall_x': 4, 'neg_mul_sumall_mul_x': 4, 'add_x_maxall': 4, 'add_x_lit': 4, 'mul_lit_x': 4}
-SYCL_GROUPS = [1, 2, 3, 4]
+              'mul_sumall_x': 4, 'sub_maxall_x': 4, 'neg_mul_sumall_mul_x': 4, 'add_x_maxall': 4, 'add_x_lit': 4, 'mul_lit_x': 4,
+              'act_leaky': 5, 'act_hardtanh': 5, 'act_softplus': 5, 'leaky_add': 5, 'add_leaky_x': 5, 'hardtanh_mul_elu_x': 5}
+SYCL_GROUPS = [1, 2, 3, 4, 5]
 SYCL_LOCAL = 32          # work-group size chosen by sycl::context_t::run_
 _SYCL_INC = os.path.join(os.path.dirname(os.path.dirname(os.path.dirname(os.path.abspath(__file__)))), 'harness', 'c13_sycl')
 
@@ -342,12 +396,13 @@ DEV_BACKENDS = {'cuda': ['-x', 'cuda', '--cuda-host-only', '-nocudainc', '-nocud
 
 
 def harness_specs(tier):
-    sp = [dict(name='h_c13_g%d' % g, src='h_c13.cpp', flavour='fast', extra=['-DC13_GROUP=%d' % g]) for g in GROUPS]
-    sp += [dict(name='h_c13_sycl%d' % g, src='h_c13_sycl.cpp', flavour='fast', extra=['-DC13_SYCL_GROUP=%d' % g, '-I' + _SYCL_INC]) for g in SYCL_GROUPS]
+    fl = lambda g, groups: ['-DC13_ELEM_FLOAT'] if g in groups else []
+    sp = [dict(name='h_c13_g%d' % g, src='h_c13.cpp', flavour='fast', extra=['-DC13_GROUP=%d' % g] + fl(g, FLOAT_GROUPS)) for g in GROUPS]
+    sp += [dict(name='h_c13_sycl%d' % g, src='h_c13_sycl.cpp', flavour='fast', extra=['-DC13_SYCL_GROUP=%d' % g, '-I' + _SYCL_INC] + fl(g, SYCL_FLOAT_GROUPS)) for g in SYCL_GROUPS]
     sp += [dict(name='h_c13_%s' % b, src='h_c13_dev.cpp', flavour='fast', compiler='clang++', extra=fl) for b, fl in DEV_BACKENDS.items()]
     if tier == 'thorough':
         # the same TUs under ASan + UBSan (NDEBUG as the baseline): out-of-bounds / lifetime errors of the kernel body are results
-        sp += [dict(name='h_c13_g%d_san' % g, src='h_c13.cpp', flavour='san', extra=['-DC13_GROUP=%d' % g]) for g in GROUPS]
+        sp += [dict(name='h_c13_g%d_san' % g, src='h_c13.cpp', flavour='san', extra=['-DC13_GROUP=%d' % g] + fl(g, FLOAT_GROUPS)) for g in GROUPS]
     return sp
 
 
@@ -372,9 +427,9 @@ def launch(n, bsz, extra_blocks, order, rng):
     return th, grid
 
 
-def expected(res_flat, n, bsz, sched):
+def expected(res_flat, n, bsz, sched, sentinel=SENTINEL):
     hit = set(b * bsz + t for (t, b) in sched)
-    out = [int(res_flat[i]) if i in hit else SENTINEL for i in range(n)]
+    out = [int(res_flat[i]) if i in hit else sentinel for i in range(n)]
     return out, int(all(int(res_flat[i]) == out[i] for i in range(n)))
 
 
@@ -410,20 +465,20 @@ def kern_cases(name, shapes, params, scheds, mode, tags=()):
     if res.size == 0 or res.size > MAXOUT or np.abs(res).max() >= 2 ** 31:
         return
     oshape = list(res.shape)
-    rf = [int(x) for x in res.reshape(-1)]
+    rf, sent = encode(res, pg)
     n = len(rf)
     base = 'c13_kern prog=%s shapes=%s %s data=%s mode=%s' % (pg['hprog'], fmt_lists(shapes), fmt_params(params), pg['data'], mode)
     base = ' '.join(base.split())
     for bsz, sched, stags in scheds(n):
-        out, eq = expected(rf, n, bsz, sched)
+        out, eq = expected(rf, n, bsz, sched, sent)
         req = '%s init=%d bsz=%d sched=%s' % (base, SENTINEL, bsz, fmt_sched(sched))
-        mreq = 'c13_kern shape=%s res=%s init=%d bsz=%d sched=%s' % (fmt(oshape), fmt(rf), SENTINEL, bsz, fmt_sched(sched))
+        mreq = 'c13_kern shape=%s res=%s init=%d bsz=%d sched=%s' % (fmt(oshape), fmt(rf), sent, bsz, fmt_sched(sched))
         oracle = 'ok shape=%s out=%s hosteq=%d' % (fmt(oshape), fmt(out), eq)
         # known-defect regions (oracle is the judge there, the Lean model is not asked)
         col = pg['layout'] == 'col' or (pg['nonfirst'] and mode == 'dev')
         plain = ('asc' in stags and 'exact' in stags and 'dup' not in stags)
         yield Case(req, 'h_c13_g%d' % pg['group'], dom=not col, oracle=oracle, model=not col, mreq=mreq,
-                   nontrivial=(n >= 2 and not plain),
+                   cmp=(float_cmp if pg['data'] == 'float' else None), nontrivial=(n >= 2 and not plain),
                    tags=['prog=' + name, 'depth=%d' % pg['depth'], 'mode=' + mode, 'outdim=%d' % len(oshape), 'bsz=%d' % bsz] + list(stags) + list(tags))
 
 
@@ -481,7 +536,8 @@ def sycl_cases(tier, rng):
             if res.size == 0 or res.size > MAXOUT or np.abs(res).max() >= 2 ** 31:
                 continue
             made += 1
-            oshape = list(res.shape); rf = [int(x) for x in res.reshape(-1)]; n = len(rf)
+            oshape = list(res.shape); (rf, sent) = encode(res, pg); n = len(rf)
+            fcmp = float_cmp if pg['data'] == 'float' else None
             G = -(-n // SYCL_LOCAL) * SYCL_LOCAL
             base = ' '.join(('prog=%s shapes=%s %s data=%s init=%d' % (pg['hprog'], fmt_lists(shapes), fmt_params(params), pg['data'], SENTINEL)).split())
             off = pg['layout'] == 'col' or pg['nonfirst']        # known-defect regions: the oracle is the judge
@@ -516,10 +572,10 @@ def sycl_cases(tier, rng):
                     stags.append('partial')
                 plain = (order == 'asc' and kind not in (2, 4, 6))
                 sched = [(g, 0) for g in ids]
-                out, eq = expected(rf, n, 1, sched)
+                out, eq = expected(rf, n, 1, sched, sent)
                 req = 'c13_sycl %s sched=%s' % (base, 'all' if plain else fmt_sched(sched))
-                mreq = 'c13_kern shape=%s res=%s init=%d bsz=1 sched=%s' % (fmt(oshape), fmt(rf), SENTINEL, fmt_sched(sched))
-                yield Case(req, h, dom=not off, oracle='ok shape=%s out=%s hosteq=%d' % (fmt(oshape), fmt(out), eq), model=not off, mreq=mreq,
+                mreq = 'c13_kern shape=%s res=%s init=%d bsz=1 sched=%s' % (fmt(oshape), fmt(rf), sent, fmt_sched(sched))
+                yield Case(req, h, dom=not off, oracle='ok shape=%s out=%s hosteq=%d' % (fmt(oshape), fmt(out), eq), model=not off, mreq=mreq, cmp=fcmp,
                            nontrivial=(n >= 2 and not plain), tags=tags0 + stags)
 
 
@@ -547,7 +603,7 @@ def gen(tier, rng):
         # thorough: every 4th in-domain request (every 16th of the known-defect regions) also goes to the sanitizer build
         k += 1
         if tier == 'thorough' and c.req.startswith('c13_kern') and 'cross' not in c.tags and k % (4 if c.dom else 16) == 0:
-            yield Case(c.req, c.harness + '_san', dom=c.dom, oracle=c.oracle, model=False, mreq=c.mreq, nontrivial=False, tags=list(c.tags) + ['san'])
+            yield Case(c.req, c.harness + '_san', dom=c.dom, oracle=c.oracle, model=False, mreq=c.mreq, cmp=c.cmp, nontrivial=False, tags=list(c.tags) + ['san'])
 
 
 def gen_(tier, rng):
